@@ -61,6 +61,10 @@ Definition foreign_samples : list bytes :=
   ; [x67;x6f]                                                 (* go *)
   ; [x6d;x61;x6e;x69;x66;x65;x73;x74;x2e;x6a;x73;x6f;x6e]     (* manifest.json *)
   ; [x67;x6f;x2e;x6d;x6f;x64]                                 (* go.mod *)
+  ; [x61;x2e;x67;x72;x2e;x67;x6f;x2e;x74;x6d;x70]   (* a.gr.go.tmp *)
+  ; [x61;x2e;x67;x72;x2e;x67;x6f;x7e]   (* a.gr.go~ *)
+  ; [x2e;x61;x2e;x67;x72;x2e;x67;x6f;x2e;x73;x77;x70]   (* .a.gr.go.swp *)
+  ; [x23;x61;x2e;x67;x72;x2e;x67;x6f;x23]   (* #a.gr.go# *)
   ; [] ].
 Definition owned_samples (manifest : bytes) : list bytes :=
   [ [x61;x2e;x67;x72;x2e;x67;x6f]; [x2e;x67;x72;x2e;x67;x6f]; manifest ].
